@@ -108,7 +108,7 @@ namespace vh
         for (size_t i = next; i < cases.size(); ++i)
         {
           *progress = i;
-          std::cout << "case " << cases[i].id << "\n";
+          std::cout << "case " << cases[i].id << std::endl;
           try { run_one(cases[i]); }
           catch (std::exception const& e)
           { std::cout << "abort:exception\n"; }
